@@ -9,6 +9,7 @@ import (
 
 type ICache[T any] interface {
 	CheckAndSet(key T) bool
+	Has(key T) bool
 	DB(db string) ICache[T]
 }
 
@@ -34,6 +35,16 @@ func (c *Cache[T]) CheckAndSet(key T) bool {
 	}
 	c.sets.Set(k, []byte{1})
 	return false
+}
+
+// Has reports whether key is set, without setting it.
+func (c *Cache[T]) Has(key T) bool {
+	if c.isDistributed {
+		return false
+	}
+	c.mtx.Lock()
+	defer c.mtx.Unlock()
+	return c.sets.Has(append(c.db, c.serializer(key)...))
 }
 
 func (c *Cache[T]) Stop() {
